@@ -9,6 +9,7 @@ import (
 	"fmt"
 	"os"
 	"runtime"
+	"strconv"
 	"strings"
 	"testing"
 	"time"
@@ -119,13 +120,23 @@ func TestVerifReplay(t *testing.T) {
 	if err := json.Unmarshal(data, &cases); err != nil {
 		t.Fatal(err)
 	}
-	var results []vhResult
+	skip, _ := strconv.Atoi(os.Getenv("VERIF_REPLAY_SKIP"))
+	of, err := os.OpenFile(out, os.O_CREATE|os.O_WRONLY|os.O_APPEND, 0o644)
+	if err != nil {
+		t.Fatal(err)
+	}
+	defer of.Close()
+	seq := 0
 	for ci, c := range cases {
 		fn := vhRegistry[c.Harness]
 		if fn == nil {
 			t.Fatalf("unknown harness %s", c.Harness)
 		}
 		for wi, w := range c.Witnesses {
+			seq++
+			if seq <= skip {
+				continue
+			}
 			var oc, detail, label string
 			var obs []string
 			if race {
@@ -139,11 +150,12 @@ func TestVerifReplay(t *testing.T) {
 			} else {
 				oc, detail, obs, label = vhRunOne(fn, c.Params, w.Vector, w.Sched, os.Getenv("VERIF_SCHED") == "1")
 			}
-			results = append(results, vhResult{Case: ci, Witness: wi, Outcome: oc, Obs: obs, Detail: detail, Label: label})
+			// one line per witness, written at once: whatever kills the process
+			// later, the results so far are on disk
+			b, _ := json.Marshal(vhResult{Case: ci, Witness: wi, Outcome: oc, Obs: obs, Detail: detail, Label: label})
+			if _, err := of.Write(append(b, '\n')); err != nil {
+				t.Fatal(err)
+			}
 		}
-	}
-	b, _ := json.Marshal(results)
-	if err := os.WriteFile(out, b, 0o644); err != nil {
-		t.Fatal(err)
 	}
 }
